@@ -8,6 +8,9 @@ RULE = ("all PIN lengths 4..12 x PAN lengths 13..24 / 1..19 x digit patterns (ra
         "the from-the-standard construction executed by the Lean driver; distinct = distinct driver lines")
 
 
+KEYPOOL = {}
+
+
 def nibs(b):
     return [x for byte in b for x in (byte >> 4, byte & 15)]
 
@@ -47,7 +50,9 @@ def generate(rng, tier, seed):
         for pan4len in range(1, 20):
             for ks in (16, 24, 32):
                 for _ in range(reps):
-                    pin, pan, key = digits(rng, plen), pats[rng.randrange(len(pats))](pan4len), rb(rng, ks)
+                    # keys come from a small pool so that the same key is used by many consecutive calls
+                    pool = KEYPOOL.setdefault(ks, [rb(rng, ks) for _ in range(3)])
+                    pin, pan, key = digits(rng, plen), pats[rng.randrange(len(pats))](pan4len), rng.choice(pool)
                     c = Case("format-4", {"pin_len": plen, "pan_len": pan4len, "key": ks})
                     f4 = c.call("pinblock.encode_pin_field_iso_4", pin, with_entropy=True)
                     pf = c.call("pinblock.encode_pan_field_iso_4", pan)
